@@ -298,9 +298,23 @@ def run(ctx: Any, prog: Program) -> None:
                           text=f'{name}: sys.{c.func.attr}')
             if isinstance(c, ast.Call) and dotted(c.func) in SINKS:
                 ctx.check('C18.S4', False, fs, c, f'FileSystemChain.{name} touches the OS directly', func=f'FileSystemChain.{name}', text=f'{name}: {dotted(c.func)}')
+    # ... and nothing in filesys.py re-roots a directory filesystem: a `RawFileSystem(<something built from another filesystem's .path>)` is a new
+    # root that was never checked against the old one - with a member prefix such as `../other` the "subfolder" lies outside the directory
+    # the user constrained, and every later lookup is contained in the wrong place
+    n_ctor = 0
+    for q4, fl4 in fs.all_funcs().items():
+        for f4 in fl4:
+            for c in walk_no_nested(f4):
+                if isinstance(c, ast.Call) and dotted(c.func) == 'RawFileSystem' and c.args:
+                    n_ctor += 1
+                    from_other = [x for x in ast.walk(c.args[0]) if isinstance(x, ast.Attribute) and x.attr == 'path' and isinstance(x.value, ast.Name) and x.value.id not in ('os',)]
+                    ctx.check('C18.S4', not from_other, fs, c, f'{q4} builds `{U(c)[:70]}`: a directory filesystem rooted at a path derived from another filesystem\'s root and further text, which is not checked against that root - '
+                              'a prefix containing `..` (or an absolute one) moves the new root outside the constrained directory', func=q4, text=f'{q4}: RawFileSystem root not derived from another root')
+    ctx.check('C18.S4', True, fs, fs.tree, f'{n_ctor} RawFileSystem constructions in filesys.py examined', func='<module>', text='RawFileSystem constructions examined')
 
 
 MUTANTS = [
+    {'id': 'chain_mounts_subfolder_as_new_root', 'file': 'filesys.py', 'find': "        if priority:\n            self.systems.insert(0, (sys, prefix))", 'replace': "        if prefix and isinstance(sys, RawFileSystem):\n            sys = RawFileSystem(os.path.join(sys.path, prefix), sys.constrain_path)\n            prefix = ''\n        if priority:\n            self.systems.insert(0, (sys, prefix))", 'expect': 'C18.S4'},
     {'id': 'containment_by_zipped_components', 'file': 'filesys.py', 'find': "        if self.constrain_path and abs_path != self.path and not abs_path.startswith(os.path.join(self.path, '')):\n            raise RootEscapeError(self.path, path)", 'replace': "        if self.constrain_path and any(ours != theirs for ours, theirs in zip(self.path.split(os.sep), abs_path.split(os.sep))):\n            raise RootEscapeError(self.path, path)", 'expect': 'C18.S1'},
     {'id': 'ok_containment_by_component_prefix', 'file': 'filesys.py', 'find': "        if self.constrain_path and abs_path != self.path and not abs_path.startswith(os.path.join(self.path, '')):\n            raise RootEscapeError(self.path, path)", 'replace': "        if self.constrain_path and abs_path.split(os.sep)[:len(self.path.split(os.sep))] != self.path.split(os.sep):\n            raise RootEscapeError(self.path, path)", 'expect': None, 'refuse_ok': True},
     {'id': 'ok_resolve_with_normpath_of_join', 'file': 'filesys.py', 'find': "        abs_path = os.path.abspath(os.path.join(self.path, path))\n", 'replace': "        abs_path = os.path.normpath(os.path.join(self.path, path))\n", 'expect': None},
